@@ -58,7 +58,9 @@ Specs == { <<[pat |-> Lit("xa"), key |-> "const"]>>,
            <<[pat |-> ReX, key |-> "group"]>>,
            <<[pat |-> ReX, key |-> "name"]>>,
            <<[pat |-> Lit("xb"), key |-> "name"], [pat |-> Lit("xa"), key |-> "const"]>>,     \* specification order, not schema order
-           <<[pat |-> Lit("b"), key |-> "const"], [pat |-> ReX, key |-> "group"]>> }
+           <<[pat |-> Lit("b"), key |-> "const"], [pat |-> ReX, key |-> "group"]>>,
+           <<[pat |-> Lit("xa"), key |-> "const"], [pat |-> ReX, key |-> "group"]>>,        \* overlapping entries: a field belongs to the FIRST entry that matches it
+           <<[pat |-> ReX, key |-> "name"], [pat |-> Lit("xb"), key |-> "const"]>> }         \* ... so this second entry selects nothing
 Matches(pat, f) == IF pat.t = "lit" THEN f = pat.name ELSE f \in {"xa", "xb"}        \* x(.) fully matches xa, xb
 GroupOf(f) == IF f = "xa" THEN "a" ELSE "b"
 DerivedKey(e, f) == CASE e.key = "const" -> "K" [] e.key = "name" -> f [] e.key = "group" -> GroupOf(f)
